@@ -49,7 +49,7 @@ func c01Seqs(run *ev.Run) [][]string {
 		out = append(out, s)
 	}
 	// all placements of zero messages over {Z,S,T}
-	maxK := 4
+	maxK := run.Pick(4, 5)
 	alpha := []string{"Z", "S", "T"}
 	r := run.Rand("c01-seqs")
 	for k := 1; k <= maxK; k++ {
@@ -58,7 +58,7 @@ func c01Seqs(run *ev.Run) [][]string {
 			total *= 3
 		}
 		for x := 0; x < total; x++ {
-			if run.Quick() && k == 4 && r.Intn(8) != 0 {
+			if (run.Quick() && k == 4 && r.Intn(8) != 0) || (k == 5 && r.Intn(3) != 0) {
 				// quick: a seeded eighth of the 81 length-4 sequences ...
 				continue
 			}
